@@ -1106,6 +1106,19 @@ func main() {
 		pairStress(c, ct, r, fmt.Sprint("pair-stress#", i), r.Range(2, 8), c.N(2000, 8000), []int{16, 4, 2, 8}[(i/len(ctypes))%4])
 	})
 
+	// monitor 1e (both flavours: the observers' calls next to the writers are also what the
+	// race detector needs to see)
+	ireps := c.N(4, 24)
+	if isRace {
+		ireps = c.N(2, 8)
+	}
+	c.Cases("invariant-poll", len(ctypes)*ireps, func(i int, r *vlib.Rand) {
+		ct := ctypes[i%len(ctypes)]
+		invPoll(c, ct, r, fmt.Sprint("invariant-poll#", i), []int{4, 16, 2, 8}[(i/len(ctypes))%4])
+	})
+	c.Floor("invpoll_runs", int64(len(ctypes)*ireps/c.NShards/4), c.Counter("invpoll_runs"))
+	c.Floor("invpoll_observations", int64(len(ctypes)*ireps/c.NShards)*100, c.Counter("invpoll_observations"))
+
 	// monitor 2
 	runLinearizability(c)
 
